@@ -277,6 +277,36 @@ pub fn check_large(_alg: Algorithm, inp: &super::large::LargeInput) -> Result<(b
             l
         ));
     }
+    // the same through the text API (lines), which maps items to integers above 100 tokens
+    let so: Vec<String> = old.iter().map(|x| format!("{}\n", x)).collect();
+    let sn: Vec<String> = new.iter().map(|x| format!("{}\n", x)).collect();
+    let (to, tn) = (so.concat(), sn.concat());
+    let tops = subject(|| {
+        similar::TextDiff::configure()
+            .algorithm(Algorithm::Patience)
+            .diff_lines(&to, &tn)
+            .ops()
+            .to_vec()
+    })
+    .map_err(|p| format!("TextDiff: panic: {}", p))?;
+    let mut matched = 0;
+    for op in &tops {
+        if op.tag() == DiffTag::Equal {
+            for (i, j) in op.old_range().zip(op.new_range()) {
+                if anchor_of.get(&i) == Some(&j) {
+                    matched += 1;
+                }
+            }
+        }
+    }
+    if matched != l {
+        return Err(format!(
+            "TextDiff (Patience, lines) pairs {} of the {} lines that are unique on both sides; the longest in-order chain has {}",
+            matched,
+            u.len(),
+            l
+        ));
+    }
     Ok((l >= 2, ops.len() as u64, ops_fp(&ops)))
 }
 
